@@ -222,3 +222,36 @@ func ctrInv(s *seqCounters) bool {
 //@ func (*ChannelMgr).GetChannel
 //@   requires cm != nil
 //@   ensures  ret0 == locked(cm.channels[chName])
+
+// addSegmentData: a sequence number is counted for a track only after that track's buffer
+// has accepted the item (a rejected or repeated upload never advances the completeness count),
+// and a new complete number is only reported for accepted items.
+//@ func (*segmentTimelineGenerator).addSegmentData
+//@   wiring
+//@   ensures noNumberOnError: err != nil ==> newSeqNr == 0
+//@   callsite (*seqCounters).add requires countedOnlyIfStored: err == nil
+//@   callsite (*seqCounters).add requires countsTheStoredNumber: arg_seqNr == item.seqNr
+//@   callsite (*segDataBuffer).add requires storesTheItem: arg_item.seqNr == item.seqNr && arg_item.name == item.name
+//@   callsite newFullCounter requires onlyWhenStarted: s._started && err == nil
+
+// dropSeqNr: the same number is dropped from every track buffer and from the counters.
+//@ func (*segmentTimelineGenerator).dropSeqNr
+//@   wiring
+//@   callsite (*segDataBuffer).dropSeqNr requires sameNumber: arg_seqNr == seqNr
+//@   callsite drop requires sameNumber: arg_seqNr == seqNr
+
+// The chunk callback of SegmentHandlerFunc: the file a segment is written to and the old file
+// removed from the sliding window are both named in the receiver's OUTGOING numbering
+// (rsd.seqNr, the number stored in the buffers and listed in the MPD), never the encoder's.
+//@ func (*Receiver).SegmentHandlerFunc$2
+//@   wiring
+//@   callsite Sprintf requires filesInStoredNumbering: arg0 == "%d%s" ==> (vararg0.(uint32) == (*rsd).seqNr || vararg0.(uint32) == (*rsd).seqNr - (*ch).maxNrBufSegs)
+
+// generateSegmentTimelineNrMPD: the range written into every adaptation set and remembered as
+// latest is exactly the complete range of the counters for the current number of tracks, and
+// an MPD is only produced when it advances and stays inside that range.
+//@ func (*segmentTimelineGenerator).generateSegmentTimelineNrMPD
+//@   wiring
+//@   callsite fullRange requires allTracks: arg_nrTracks == sg._nrTracks
+//@   callsite modifySegmentTemplate requires completeRange: arg_firstNr == firstNr && arg_lastNr == lastNr && newLatestSeqNr > sg.latestSeqNr && newLatestSeqNr <= lastNr
+//@   ensures latestIsListed: result == nil ==> sg.latestSeqNr >= newLatestSeqNr
